@@ -89,6 +89,7 @@ func cmdVerify(args []string) {
 	timeout := fs.Int("timeout", 10, "solver timeout (s)")
 	out := fs.String("out", "/verif/out/dev", "output dir")
 	verbose := fs.Bool("v", false, "verbose")
+	audit := fs.Bool("audit-locals", false, "only list the source locals each contract names (no solving)")
 	fs.Parse(args)
 	e := NewEngine(envOr("VERIF_REPO", "/repo"), envOr("VERIF_DIR", "/verif"))
 	if err := e.Load(strings.Split(*pkgs, ",")); err != nil {
@@ -176,6 +177,16 @@ func cmdVerify(args []string) {
 			continue
 		}
 		gens = append(gens, g)
+	}
+	if *audit {
+		// which source locals do the contracts refer to by name?  (a rename of one of
+		// them breaks the contract: prefer let/result_of/arg_of/loaded/at_call)
+		for _, g := range gens {
+			if len(g.localsNamed) > 0 {
+				fmt.Printf("%s: %s\n", g.fnName, strings.Join(sortedKeys(g.localsNamed), ", "))
+			}
+		}
+		return
 	}
 	solveAll(gens, pre, *out, *timeout, 12)
 	bad := 0
